@@ -7,6 +7,14 @@ PKGS = {
 }
 
 PROPS = {
+    "C04": {
+        "harnesses": [
+            {"pkg": "interpreter", "name": "VH_C04_Accept", "quick": {"params": {"IN": 2, "OUT": 2}}, "thorough": {"params": {"IN": 3, "OUT": 3}}},
+            {"pkg": "interpreter", "name": "VH_C04_Accept", "quick": {"params": {"IN": 1, "OUT": 1, "INSC": 1}}, "thorough": {"params": {"IN": 2, "OUT": 2, "INSC": 1}}},
+            {"pkg": "interpreter", "name": "VH_C04_Commit", "quick": {"params": {"IN": 2, "OUT": 2}}, "thorough": {"params": {"IN": 2, "OUT": 3}}},
+        ],
+        "assumptions": [],
+    },
     "C05": {
         "harnesses": [
             {"pkg": "interpreter", "name": "VH_C05_Opcode", "quick": {"params": {"D": 3, "K": 2, "A": 1, "U": 6, "KM": 1}}, "thorough": {"params": {"D": 4, "K": 3, "A": 1, "U": 8, "KM": 2}}},
